@@ -242,6 +242,30 @@ def _twice(case):
     b = _run(app, ["probe", "--count=abc", "1"])
     if a != b:
         diffs.append("error report")
+    # an error trace rendered for an output without UTF-8 support, after the same frames were rendered for a
+    # UTF-8 output, must equal what a fresh process renders (class-level caches cleared = fresh)
+    from clikit.api.io.flags import DEBUG
+    from clikit.ui.components.exception_trace import ExceptionTrace
+    from harness import c04_handlers as H
+
+    def render(utf8, verbosity):
+        io = BufferedIO()
+        io.set_verbosity(verbosity)
+        io.output._supports_utf8 = utf8
+        io.error_output._supports_utf8 = utf8
+        try:
+            H.raise_it({"type": "RuntimeError", "msg": "plain"})
+        except RuntimeError as e:
+            ExceptionTrace(e).render(io)
+        return io.fetch_output() + io.fetch_error()
+
+    for verbosity in (DEBUG, 1):
+        ExceptionTrace._FRAME_SNIPPET_CACHE.clear()
+        render(True, verbosity)
+        again = render(False, verbosity)
+        ExceptionTrace._FRAME_SNIPPET_CACHE.clear()
+        if again != render(False, verbosity):
+            diffs.append("error trace after a render for another kind of output (verbosity %d)" % verbosity)
     return {"diffs": diffs}
 
 
